@@ -84,6 +84,10 @@ fn main() {
         "C17" => c17::run(&mut sink, thorough, seed),
         "C08" => c08::run(&mut sink, thorough, seed),
         "C15" => c15::run(&mut sink, thorough, seed),
+        // the raw_value configuration of C16 runs op c16x only (its pool holds the objects keyed by the private RawValue token)
+        #[cfg(feature = "rv")]
+        "C16" => c16x::run(&mut sink, thorough, seed),
+        #[cfg(not(feature = "rv"))]
         "C16" => { c16::run(&mut sink, thorough, seed); typed::run_tt(&mut sink, thorough, seed); c16x::run(&mut sink, thorough, seed); }
         "C04" => {
             c04::run(&mut sink, thorough, seed);
